@@ -48,6 +48,21 @@ func textIs(want string) valueCheck {
 	}
 }
 
+// textHas: the value is this resource's own content (contains its marker, none of the others')
+func textHas(want string, others ...string) valueCheck {
+	return func(n *indep.Node) string {
+		if !strings.Contains(n.Text, want) {
+			return fmt.Sprintf("content lacks %q: %q", want, trunc(n.Text, 120))
+		}
+		for _, o := range others {
+			if strings.Contains(n.Text, o) {
+				return fmt.Sprintf("content of another resource (%q) reported: %q", o, trunc(n.Text, 120))
+			}
+		}
+		return ""
+	}
+}
+
 func hrefIs(want string) valueCheck {
 	return func(n *indep.Node) string {
 		h := n.First(indep.DAV, "href")
@@ -112,6 +127,10 @@ func c11MemFS() (*harness.MemFS, []resExpect) {
 		{Path: "/d/full.txt", Size: 1 << 31, ModTime: mt, MIMEType: "text/plain; charset=utf-8", ETag: `q"uote`},
 		{Path: "/d/bare", Size: 0}, // lacks modtime, type and tag
 		{Path: "/top.bin", Size: 7, ETag: "only-tag"},
+		// names that must be escaped in an href (once)
+		{Path: "/d/a b.txt", Size: 3, ETag: "sp"},
+		{Path: "/d/100%", IsDir: true},
+		{Path: "/d/100%/é#?.txt", Size: 5, ModTime: mt, ETag: "meta"},
 	}
 	var res []resExpect
 	for _, f := range files {
@@ -200,9 +219,10 @@ func c11Servers() []c11Server {
 		}
 		cres = append(cres, e)
 	}
-	for _, o := range cobjs {
+	for oi, o := range cobjs {
+		marks := []string{"SUMMARY:one", "SUMMARY:two"}
 		e := resExpect{Path: o.Path, Parent: path.Dir(o.Path) + "/", Has: map[qname]valueCheck{
-			dav("current-user-principal"): cup, dav("getcontenttype"): textIs("text/calendar"), {nsCal, "calendar-data"}: nonEmpty, dav("resourcetype"): typesAre()}}
+			dav("current-user-principal"): cup, dav("getcontenttype"): textIs("text/calendar"), {nsCal, "calendar-data"}: textHas(marks[oi], marks[1-oi]), dav("resourcetype"): typesAre()}}
 		if o.ContentLength > 0 {
 			e.Has[dav("getcontentlength")] = textIs(strconv.FormatInt(o.ContentLength, 10))
 		}
@@ -224,6 +244,11 @@ func c11Servers() []c11Server {
 		single = append(single, cres[4]) // /u/c/k2/ (bare collection)
 		bare := cres[len(cres)-1]        // o2.ics has no optional values
 		bare.Path, bare.Parent = "/u/c/k2/only.ics", "/u/c/k2/"
+		bare.Has = map[qname]valueCheck{}
+		for k, v := range cres[len(cres)-1].Has {
+			bare.Has[k] = v
+		}
+		bare.Has[qname{nsCal, "calendar-data"}] = textHas("SUMMARY:only")
 		single = append(single, bare)
 		out = append(out, c11Server{Name: "caldav-single", Handler: func() http.Handler {
 			return &caldav.Handler{Backend: &harness.CalBackend{Principal: "/u/", HomeSet: "/u/c/", Calendars: cals[1:], Objects: []caldav.CalendarObject{{Path: "/u/c/k2/only.ics", Data: harness.SampleCalendar("9", "only")}}}}
@@ -261,9 +286,10 @@ func c11Servers() []c11Server {
 		}
 		ares = append(ares, e)
 	}
-	for _, o := range aobjs {
+	for oi, o := range aobjs {
+		marks := []string{"FN:one", "FN:two"}
 		e := resExpect{Path: o.Path, Parent: path.Dir(o.Path) + "/", Has: map[qname]valueCheck{
-			dav("current-user-principal"): cup, dav("getcontenttype"): textIs("text/vcard"), {nsCard, "address-data"}: nonEmpty, dav("resourcetype"): typesAre()}}
+			dav("current-user-principal"): cup, dav("getcontenttype"): textIs("text/vcard"), {nsCard, "address-data"}: textHas(marks[oi], marks[1-oi]), dav("resourcetype"): typesAre()}}
 		if o.ContentLength > 0 {
 			e.Has[dav("getcontentlength")] = textIs(strconv.FormatInt(o.ContentLength, 10))
 		}
@@ -319,6 +345,15 @@ func c11Body(c c11Case) string {
 		return pfPropname
 	case "none":
 		return pfNone
+	case "none-include":
+		return `<?xml version="1.0" encoding="utf-8"?><D:propfind xmlns:D="DAV:"><D:include><D:displayname/></D:include></D:propfind>`
+	case "none-empty-include":
+		return `<?xml version="1.0" encoding="utf-8"?><D:propfind xmlns:D="DAV:"><D:include/></D:propfind>`
+	case "none-unknown-child":
+		return `<?xml version="1.0" encoding="utf-8"?><D:propfind xmlns:D="DAV:"><D:everything/><x:other xmlns:x="urn:not-dav"/></D:propfind>`
+	case "none-foreign-allprop":
+		// an element called allprop in another namespace is not DAV:allprop
+		return `<?xml version="1.0" encoding="utf-8"?><D:propfind xmlns:D="DAV:"><x:allprop xmlns:x="urn:not-dav"/></D:propfind>`
 	}
 	var sb strings.Builder
 	sb.WriteString(`<?xml version="1.0" encoding="utf-8"?><D:propfind xmlns:D="DAV:"><D:prop>`)
@@ -341,7 +376,7 @@ func c11Judge(sv c11Server, c c11Case) (clause, detail string) {
 	if resp.Panic != "" {
 		return "panic", resp.Panic
 	}
-	if c.Form == "none" {
+	if strings.HasPrefix(c.Form, "none") {
 		if resp.Status != 400 {
 			return "none-of-three-not-400", fmt.Sprint(resp.Status)
 		}
@@ -518,7 +553,7 @@ func init() {
 			}
 			for _, res := range sv.Resources {
 				for _, d := range []string{"-", "0", "1", "infinity"} {
-					for _, f := range []string{"empty", "allprop", "propname", "none"} {
+					for _, f := range []string{"empty", "allprop", "propname", "none", "none-include", "none-empty-include", "none-unknown-child", "none-foreign-allprop"} {
 						cases = append(cases, c11Case{Server: sv.Name, Target: res.Path, Depth: d, Form: f})
 						svIdx = append(svIdx, si)
 					}
@@ -552,6 +587,11 @@ func init() {
 				if clause == "scope-missing-resource" && c.Target == "/" && c.Depth != "0" && strings.Contains(detail, `got [/]`) {
 					// one root cause: the discovery root answers for itself only, whatever the Depth
 					sig = fmt.Sprintf("C11/scope-missing-resource/%s.root-answers-depth-0-only", strings.SplitN(sv.Name, "-", 2)[0])
+				}
+				if clause == "none-of-three-not-400" && c.Form == "none-foreign-allprop" && detail == "207" {
+					// one root cause for every server and level: the request struct matches its children by
+					// local name only
+					sig = "C11/none-of-three-not-400/foreign-namespace-allprop-read-as-DAV-allprop"
 				}
 				s.Violate(engine.Violation{Sig: sig, Clause: clause, Index: int64(i), Kind: "C11", Case: c,
 					Expected: "207, well-formed, scope by Depth, each requested property exactly once (200 value / 404 empty)", Observed: detail})
